@@ -131,6 +131,10 @@ theorem never_notpred_bwd {e : Expr} {x : Str} (hx : NeverAt inp x) {s : S0} {r 
     Conv g inp (.group (.choice [.group (.seq [.notP e, .str x]) none, e]) none) s r :=
   L0.never_notpred_bwd hx none none h hs
 
+/-- `NeverAt inp x` (the literal fails at every position) follows from the syntactic
+    condition: the first character of `x` does not occur in `inp` -/
+theorem neverIn_neverAt {x : Str} (h : L0.NeverIn x inp) : NeverAt inp x := h.neverAt
+
 /-- the harness's NEVER is "␀␁" on inputs that do not contain U+2400 -/
 theorem never_literal (h : inp.toList.all (fun d => d != 0x2400) = true) : NeverAt inp [0x2400, 0x2401] :=
   L0.neverAt_of_all h
